@@ -48,6 +48,9 @@ type payload struct {
 	// PreCancel: before the real run, RunContext is called once with a context
 	// that is already cancelled (1) or already past its deadline (2)
 	PreCancel int `json:"pre_cancel,omitempty"`
+	// ViaScript: the real run goes through Script.RunContext (compile + run in
+	// one call) and everything afterwards uses the object that call returned
+	ViaScript bool `json:"via_script,omitempty"`
 }
 
 const instrBudget = 3000000
@@ -139,10 +142,14 @@ func runCase(p payload) (o outcome) {
 		}
 		cancel()
 		var pan0 interface{}
-		func() {
+		// under the guard as well: RunContext starts the VM before it looks at
+		// the context, and the first instructions may be an excluded operation
+		// (range(1 << 40, 0) ran unguarded here in the thorough tier and was
+		// reported as a hang)
+		guarded(func() {
 			defer func() { pan0 = recover() }()
 			_ = c.RunContext(ctx)
-		}()
+		}, p.AllowCycles)
 		if pan0 != nil {
 			o.fail = fmt.Sprintf("RunContext with an already-cancelled context panicked: %v", pan0)
 			return
@@ -160,6 +167,7 @@ func runCase(p payload) (o outcome) {
 	// 1+2: the call returns nil or an error, no panic reaches the caller
 	var runErr error
 	var pan interface{}
+	viaScriptNil := false
 	st := guarded(func() {
 		defer func() {
 			if r := recover(); r != nil {
@@ -168,8 +176,22 @@ func runCase(p payload) (o outcome) {
 		}()
 		ctx, cancel := context.WithTimeout(context.Background(), 60*time.Second)
 		defer cancel()
+		if p.ViaScript {
+			c2, err := s.RunContext(ctx)
+			runErr = err
+			if c2 == nil {
+				viaScriptNil = true
+				return
+			}
+			c = c2
+			return
+		}
 		runErr = c.RunContext(ctx)
 	}, p.AllowCycles)
+	if viaScriptNil && pan == nil {
+		o.fail = fmt.Sprintf("the script compiles, but Script.RunContext returned no compiled object (error: %v): nothing is left for Get/Set/Run", runErr)
+		return
+	}
 	o.steps = st.Steps()
 	if pan != nil {
 		o.fail = fmt.Sprintf("panic propagated out of RunContext: %v", pan)
@@ -426,7 +448,7 @@ func TestGeneratedHostile(t *testing.T) {
 		for k, b := range p.Modules {
 			mods[k] = lang.Render(b)
 		}
-		pl := payload{Kind: "generated", Source: src, Modules: mods, Inputs: inputs}
+		pl := payload{Kind: "generated", Source: src, Modules: mods, Inputs: inputs, ViaScript: rapid.IntRange(0, 5).Draw(t, "viaScript") == 0}
 		if rapid.IntRange(0, 7).Draw(t, "preCancel") == 0 {
 			pl.PreCancel = rapid.IntRange(1, 2).Draw(t, "preCancelKind")
 		}
@@ -458,7 +480,9 @@ type privateSentinel struct{ code int }
 
 var hostPanics = map[string]tengo.CallableFunc{
 	"hp_string": func(args ...tengo.Object) (tengo.Object, error) { panic("host function panics with a string") },
-	"hp_error":  func(args ...tengo.Object) (tengo.Object, error) { panic(errors.New("host function panics with an error")) },
+	"hp_error": func(args ...tengo.Object) (tengo.Object, error) {
+		panic(errors.New("host function panics with an error"))
+	},
 	"hp_int":    func(args ...tengo.Object) (tengo.Object, error) { panic(42) },
 	"hp_struct": func(args ...tengo.Object) (tengo.Object, error) { panic(privateSentinel{7}) },
 	"hp_ptr":    func(args ...tengo.Object) (tengo.Object, error) { panic(&privateSentinel{8}) },
@@ -467,7 +491,7 @@ var hostPanics = map[string]tengo.CallableFunc{
 		m["x"] = 1 // runtime.Error
 		return nil, nil
 	},
-	"hp_index": func(args ...tengo.Object) (tengo.Object, error) { return args[len(args)+3], nil },
+	"hp_index":  func(args ...tengo.Object) (tengo.Object, error) { return args[len(args)+3], nil },
 	"hp_object": func(args ...tengo.Object) (tengo.Object, error) { panic(&tengo.Int{Value: 1}) },
 }
 
@@ -588,7 +612,7 @@ func hostileSource(t *rapid.T) (kind, src string) {
 func TestHostileTemplates(t *testing.T) {
 	rapid.Check(t, func(t *rapid.T) {
 		kind, src := hostileSource(t)
-		pl := payload{Kind: kind, Source: src}
+		pl := payload{Kind: kind, Source: src, ViaScript: rapid.IntRange(0, 5).Draw(t, "viaScript") == 0}
 		if rapid.IntRange(0, 7).Draw(t, "preCancel") == 0 {
 			pl.PreCancel = rapid.IntRange(1, 2).Draw(t, "preCancelKind")
 		}
